@@ -352,6 +352,10 @@ void macros_strip(char *macro)
   // Remove ; and // comments (not inside "strings" and 'c' constants).
   while (*s != 0)
   {
+    // A parameter is chr(1), index: the index is no character of the text
+    // (parameter 59 is not a ';', 34 and 39 are no quotes).
+    if (*s == 1 && *(s+1) != 0) { s += 2; continue; }
+
     if (quote != 0)
     {
       if (*s == '\\' && *(s+1) != 0) { s++; }
